@@ -114,6 +114,14 @@ Proof.
   - apply IH.
 Qed.
 
+(** ** the writer is _rule_grammar of its last intermediate state *)
+Theorem nx_to_gml_mid_spec (Lg Rg Kg : gr) (reindex eh : bool) :
+  nx_to_gml Lg Rg Kg reindex eh = rule_grammar (nx_to_gml_mid Lg Rg Kg reindex eh) eh.
+Proof. unfold nx_to_gml, nx_to_gml_mid, rule_grammar. destruct reindex; reflexivity. Qed.
+Theorem its_to_gml_mid_spec (its : gr) (core reindex eh : bool) :
+  its_to_gml its core reindex eh = rule_grammar (its_to_gml_mid its core reindex eh) eh.
+Proof. unfold its_to_gml, its_to_gml_mid. destruct (its_decompose _) as [r p]. apply nx_to_gml_mid_spec. Qed.
+
 (** non-vacuity *)
 Example three_routes_ex :
   mol_ok ex_r = true /\ mol_ok ex_p = true /\ balanced ex_r ex_p = true /\ eo_covers ex_r ex_p (union_pairs ex_r ex_p) = true /\
